@@ -346,7 +346,9 @@ pub fn preprocess_str<T: AsRef<Path>, U: AsRef<Path>, V: BuildHasher>(
             NodeEvent::Enter(RefNode::SourceDescriptionNotDirective(x)) => {
                 let locate: Locate = x.try_into().unwrap();
                 if let Some(last_include_line) = last_include_line {
-                    if last_include_line == locate.line {
+                    // only what stands on the `include's own line counts, and white space does not
+                    let first_line = locate.str(s).split('\n').next().unwrap_or("");
+                    if last_include_line == locate.line && !first_line.trim().is_empty() {
                         return Err(Error::IncludeLine);
                     }
                 }
@@ -363,12 +365,38 @@ pub fn preprocess_str<T: AsRef<Path>, U: AsRef<Path>, V: BuildHasher>(
                 let locate: Locate = x.try_into().unwrap();
                 // If the item is whitespace, last_item_line should not be updated
                 if !locate.str(s).trim().is_empty() {
-                    last_item_line = Some(locate.line);
+                    // the line on which the last non-whitespace character of the item stands
+                    let newlines = locate.str(s).trim_end().matches('\n').count() as u32;
+                    last_item_line = Some(locate.line + newlines);
                 }
+            }
+            NodeEvent::Enter(RefNode::SourceDescription(SourceDescription::StringLiteral(x))) => {
+                // the token itself, without the white space, comments and directives that follow it
+                let locate: Locate = x.nodes.0;
+                if let Some(last_include_line) = last_include_line {
+                    if last_include_line == locate.line {
+                        return Err(Error::IncludeLine);
+                    }
+                }
+                let newlines = locate.str(s).matches('\n').count() as u32;
+                last_item_line = Some(locate.line + newlines);
+            }
+            NodeEvent::Enter(RefNode::SourceDescription(SourceDescription::EscapedIdentifier(x))) => {
+                // the token itself, without the white space, comments and directives that follow it
+                let locate: Locate = x.nodes.0;
+                if let Some(last_include_line) = last_include_line {
+                    if last_include_line == locate.line {
+                        return Err(Error::IncludeLine);
+                    }
+                }
+                let newlines = locate.str(s).matches('\n').count() as u32;
+                last_item_line = Some(locate.line + newlines);
             }
             NodeEvent::Leave(RefNode::CompilerDirective(x)) => {
                 let locate: Locate = x.try_into().unwrap();
-                last_item_line = Some(locate.line);
+                // a directive may span lines (`ifdef ... `endif): the line on which it ends
+                let newlines = locate.str(s).trim_end().matches('\n').count() as u32;
+                last_item_line = Some(locate.line + newlines);
             }
             _ => (),
         }
